@@ -5,6 +5,7 @@ use crate::Args;
 pub fn run(a: &Args) -> i32 {
     let mut run = Run::new("C03", a.tier, a.seed, "fault_enumeration");
     crate::scenarios::run_for(&mut run, "C03");
+    crate::matrix::run_for(&mut run, "C03");
     let (ev, dn, samples) = crate::props::crash::run_part(&mut run, a, "C03");
     run.assumptions = vec![
         "same traces and image plans as C02; the verdict here is: the recovered key/value state equals the model state after some prefix of the commit order (whole transactions, no gaps, nothing resurrected)".into(),
